@@ -106,6 +106,7 @@ def make_cfg(seed, prop, tier):
         # bounded-liveness diagnostic: a quarter of the runs continue after the last fault until
         # every client has converged on the authority's document (or a step cap is hit)
         "drain": rng.random() < 0.25,
+        "drain_events": 300 if prop in ("C08", "C10") else 1500,
         "fault_kinds": sorted(enabled),
     }
     # faults stop for the last quarter of virtual activity: convergence is then a diagnostic
